@@ -333,7 +333,7 @@ class ImageBatch(DataTensor):
     ) -> Union[Image, TImageBatch, Tensor]:
         r"""Get image at specified batch index, get a sub-batch, or a region of interest tensor."""
         if index is ...:
-            return self._make_instance(self.tensor(), self.grid())
+            return self._make_instance(self.tensor(), self._grid)
         if type(index) is tuple:
             # Resolve additional ellipses
             index = [j for i, j in enumerate(index) if j is not ... or ... not in index[:i]]
@@ -362,6 +362,8 @@ class ImageBatch(DataTensor):
         if is_multi_index and len(index) > 1 and isinstance(index[1], int):
             return data  # cannot be an ImageBatch or Image without a channel dimension
         grid_index = index[0] if is_multi_index else index
+        if isinstance(grid_index, (np.ndarray, Tensor)) and grid_index.dtype in (bool, torch.bool):
+            grid_index = grid_index.nonzero()[0] if isinstance(grid_index, np.ndarray) else grid_index.nonzero().flatten()
         if isinstance(grid_index, (np.ndarray, Sequence, Tensor)):
             grid = tuple(self._grid[i] for i in grid_index)
         else:
